@@ -98,6 +98,19 @@ def values_part(ck, tier):
         if not ok:
             ck.violation("results independent of the order of the sample and of the evaluation points; scalar and array inputs agree",
                          {**ident, "x": xs[j]}, site="GaussianKDE.order")
+        # one work array re-filled IN PLACE between two evaluations (the same array object, other points): the values at its current content
+        buf = xs.copy()
+        kde(buf)
+        buf[:] = xs[perm]
+        p_b = np.asarray(kde(buf), dtype=float)
+        buf[:] = xs[::-1]
+        c_b = np.asarray(kde.cdf(buf), dtype=float)
+        kde.cdf(buf)
+        buf[:] = xs
+        p_c = np.asarray(kde(buf), dtype=float)
+        if not (np.array_equal(p_b, got_p[perm]) and np.array_equal(c_b, got_c[::-1]) and np.array_equal(p_c, got_p)):
+            ck.violation("evaluation at the current content of an array of points that the caller re-filled in place between calls",
+                         {**ident, "x": xs[j]}, site="GaussianKDE.order:reused-array")
         # integer-typed evaluation points (arrays and Python ints) give the same values as the equal floats
         ints = np.arange(int(xs.min()), int(xs.max()) + 1)
         pf, cf = np.asarray(kde(ints.astype(float))), np.asarray(kde.cdf(ints.astype(float)))
@@ -129,8 +142,8 @@ def covariance_part(ck, tier):
             s = rng.standard_t(3, size=n)
         s = np.round(s * 64) / 64               # ties and exact binary scaling
         # the last two shifts put the data ~1e7 spreads from zero (still exactly representable: the sample is a multiple of 1/64)
-        # (the last map is held as 64-bit integers -- time-stamps of spread ~2^38 around 1.7e18 -- and queried at integer points)
-        for a_log2, b in ((-10, 0.0), (7, 0.0), (0, 37.0), (12, 5.0 * 2 ** 12), (-4, -1000.0), (0, 2.0 ** 24), (0, -(2.0 ** 26)), (36, "int")):
+        # (2^-40: data of nanometre size in metres; the last map is held as 64-bit integers -- time-stamps of spread ~2^38 around 1.7e18 -- and queried at integer points)
+        for a_log2, b in ((-10, 0.0), (-40, 0.0), (7, 0.0), (0, 37.0), (12, 5.0 * 2 ** 12), (-4, -1000.0), (0, 2.0 ** 24), (0, -(2.0 ** 26)), (36, "int")):
             a = 2.0 ** a_log2
             as_int = b == "int"
             if as_int:
@@ -270,6 +283,9 @@ def moments_part(ck, tier):
                 # the mode may be any point of maximal density (several equal peaks are possible): compare the density reached
                 if abs(a * float(kde1(kde1.mode)) / float(kde0(kde0.mode)) - 1.0) > 2e-3:      # same band as the maximality check
                     bad.append("density at the mode")
+                # a pure rescaling by a power of two leaves every comparison of the search unchanged: the same peak is reported, rescaled
+                if b_sd == 0.0 and abs(float(kde1.mode) / a - float(kde0.mode)) > 1e-4 * float(kde0.h):
+                    bad.append("location of the mode (rescaling only): %.6g against %.6g, bandwidth %.3g" % (float(kde1.mode) / a, float(kde0.mode), float(kde0.h)))
                 if bad:
                     ck.violation("covariance under x -> a x + b: locations shift and scale, variance scales quadratically, shape moments unchanged",
                                  {"histogram": hs, "copies": factor, "a": a, "b": b, "differs": bad, "unscaled": [m0, v0, s0, k0],
